@@ -34,5 +34,33 @@ func (p *proxyRT) RoundTrip(r *http.Request) (*http.Response, error) { return p.
 
 func profileKnobs(profile string) knobs {
 	k := defaultKnobs()
+	switch profile {
+	case "c01":
+		k.pCancel, k.pDeadline, k.pAdvance, k.pCut = 0, 0, 0, 0
+		k.pErr, k.pPlainErr, k.maxMsgs, k.pBig, k.pDeviate = 0.1, 0.02, 6, 0.06, 0.1
+	case "c01f":
+		k.pCancel, k.pDeadline, k.pCut, k.maxMsgs = 0.35, 0.15, 0.3, 6
+	case "c02":
+		k.pCancel, k.pDeadline, k.pAdvance, k.pCut = 0, 0, 0, 0
+		k.pErr, k.pPlainErr, k.pExtraResp = 0.75, 0.2, 0.03
+	case "c02f":
+		k.pErr, k.pPlainErr, k.pCut, k.pCancel, k.pUnenc = 0.6, 0.15, 0.5, 0.2, 0.1
+	case "c03":
+		k.pMD, k.pHdrCalls, k.pCancel, k.pCreds = 0.95, 0.7, 0.2, 0.25
+	case "c04":
+		k.pCancel, k.pDeadline, k.pSleep, k.pWaitCtx, k.pClosure, k.pAdvance = 0.6, 0.4, 0.3, 0.2, 0.5, 0.1
+	case "c05":
+		k.pDeviate, k.pSplit, k.pCancel, k.pDeadline = 0.7, 0.4, 0.3, 0.1
+	case "c06":
+		k.transports = []string{TInproc}
+		k.pMutate, k.pJunkDst, k.pCancel, k.pDeadline = 0.8, 0.5, 0.4, 0.1
+		k.cloners = []int{0, 1, 2, 3, 4}
+	case "c08":
+		k.kinds = []int{KUnary, KClientStream}
+		k.pExtraResp, k.pCancel, k.pErr = 0.5, 0.1, 0.3
+	case "c10":
+		k.transports = []string{TInproc}
+		k.pCtxVals, k.pMD, k.pCreds, k.pTInt, k.pDeadline = 0.9, 0.8, 0.3, 0.5, 0.4
+	}
 	return k
 }
